@@ -11,6 +11,10 @@ def hook_commits():
         return []
 
 CHECKS = {
+ "C12": dict(cat="exploration",
+   text="A table of failing platform operations and semantically odd but accepted documents (every attribute that may hold an expression, every malformed / nonexistent target spelling, illegal delays, 16 kinds of invoke that cannot start, odd host events), each in its own process and both content data models; monitors: panic hook attributed to session / timer threads that did not survive, presence of the mandated error event, bounded progress (probe event, cancel), and a healthy witness session of the same executor that must still send and receive.",
+   note="Trusted: the scenario table's reading of which error event the Recommendation mandates (only presence is required; sending to a terminated session is not judged). 'Never stops responding' is restated as bounded progress after every injected failure.",
+   tech="fault-injection workload with runtime monitors (panic hook, witness session, bounded-progress probes)", ref="DESIGN.md §5 C12"),
  "C13": dict(cat="exploration",
    text="Real sessions under concurrent producers of four kinds (host sender clones, FsmExecutor::send_to_session, sibling sessions, timer threads), with and without seeded jitter at lock acquisitions; an offline checker over the recorded log decides exactly-once, per-sender order and non-overlap of macrosteps using unique event names; the number of distinct interleavings actually produced is measured.",
    note="Trusted: rec.rs log (one global sequence), the unique-name construction. Only the interleavings the OS scheduler and the jitter produce are covered; HTTP producers are exercised in C20.",
